@@ -52,6 +52,23 @@ class Gen:
         self.rng.shuffle(ps)
         return ps
 
+    def dups3(self):
+        """one word supplied 3..5 times (in different letter cases half of the time), interleaved with a suffix, a prefix
+        and an unrelated word: match lists of length >= 3 owned by one state"""
+        self.note("dups3")
+        w = self.word(b"abc", 1, 3)
+        n = self.rng.randint(3, 5)
+        cased = self.rng.random() < 0.5
+        reps = [bytes((b ^ 0x20) if cased and self.rng.random() < 0.5 else b for b in w) for _ in range(n)]
+        extra = [w[1:] or b"b", w[:-1] or b"a", self.word(b"xyz", 1, 2)]
+        self.rng.shuffle(extra)
+        ps = []
+        for r in reps:
+            ps.append(r)
+            if extra and self.rng.random() < 0.6:
+                ps.append(extra.pop())
+        return ps
+
     def akb(self):
         self.note("akb")
         k = self.rng.randint(2, 6)
@@ -129,8 +146,11 @@ class Gen:
 
     def pats(self, empty=True, kinds=None):
         kinds = kinds or ["tiny", "tiny3", "nest", "akb", "suffix_chain", "failchain", "failchain", "periodic", "periodic",
-                          "fanout_small", "casey", "random_bytes"]
+                          "fanout_small", "casey", "random_bytes", "dups3"]
         k = self.rng.choice(kinds)
+        if k == "dups3":
+            ps = self.dups3()
+            return ps if empty else ([p for p in ps if p] or [b"ab"])
         if k == "tiny":
             return self.tiny(b"ab", 4, 4, empty)
         if k == "tiny3":
